@@ -69,6 +69,31 @@ class Stepper(object):
             if op[1] == "mayShrinkRegionsWhilePrinting":
                 self.may_shrink = bool(op[2])
             return out
+        if op[0] == "creep":
+            _, rid, n, eps = op
+            cur = [r for r in h.regions() if r["id"] == rid]
+            if not cur or not self.condition():
+                return out
+            first = to_internal(cur[0])
+            pts = probe_points([cur[0]])
+            was = [bool(h.state.isPointExcluded(x, y)) or geom.signed_dist(first, x, y) <= 0 for (x, y) in pts]
+            reg = dict(cur[0])
+            for _ in range(n):
+                if reg["type"] == "CircularRegion":
+                    reg = dict(reg, r=max(0.0, reg["r"] - eps))
+                else:
+                    reg = dict(reg, x2=reg["x2"] - eps, y1=reg["y1"] + eps)
+                h.api("updateExcludeRegion", dict(reg))
+            scale = max([1.0] + [abs(v) for v in first.values() if isinstance(v, (int, float))])
+            regs_after = [to_internal(d) for d in h.regions()]
+            for (x, y), w in zip(pts, was):
+                if w and not h.state.isPointExcluded(x, y):
+                    gap = min([geom.signed_dist(r, x, y) for r in regs_after] or [float("inf")])
+                    if abs(gap) > 1e-9 * scale:
+                        bad("c12_area_shrank", "after %d updates shrinking %r by %r each, point (%r,%r) is no longer excluded (gap %r)" % (n, rid, eps, x, y, gap))
+                        break
+            self.classes.add("creep")
+            return out
         if op[0] == "burst":
             _, n, twin, base = op
             for k in range(n):
@@ -299,6 +324,29 @@ def machine(tier, col):  # pylint: disable=unused-argument
                     else {"type": "CircularRegion", "cx": a, "cy": b, "r": 3.5, "id": "p%d" % n})
             self.do(["api", "addExcludeRegion", data])
             self.do(["event", "PRINT_STARTED"])
+
+        @rule(pick=st.integers(0, 9), n=st.sampled_from([60, 400]), eps=st.sampled_from([5e-10, 2e-10, 1e-12]), go=st.integers(0, 9))
+        def creep(self, pick, n, eps, go):
+            """Many updates in a row, each shrinking the region by less than any rounding allowance (rare)."""
+            cur = self.stepper.h.regions()
+            if go == 0 and cur:
+                self.do(["creep", cur[pick % len(cur)]["id"], n, eps])
+
+        @rule(pick=st.integers(0, 9))
+        def delete_lookalike_id(self, pick):
+            """A delete request whose id is the number / the text that merely looks like an existing id."""
+            cur = self.stepper.h.regions()
+            if cur:
+                rid = cur[pick % len(cur)]["id"]
+                alt = int(rid) if isinstance(rid, str) and rid.isdigit() else (str(rid) if isinstance(rid, int) else None)
+                if alt is not None:
+                    self.do(["api", "deleteExcludeRegion", {"id": alt}])
+
+        @rule(rect=st.booleans(), a=coord, b=coord, rid=st.sampled_from(["7", "12", 7, 12]))
+        def add_digit_id(self, rect, a, b, rid):
+            data = ({"type": "RectangularRegion", "x1": a, "y1": b, "x2": a + 5.0, "y2": b + 3.0, "id": rid} if rect
+                    else {"type": "CircularRegion", "cx": a, "cy": b, "r": 2.5, "id": rid})
+            self.do(["api", "addExcludeRegion", data])
 
         @rule(n=st.sampled_from([30, 105]), twin=st.booleans(), go=st.integers(0, 24))
         def burst(self, n, twin, go):
